@@ -297,10 +297,62 @@ def rule_protocol(ck, facts):
                         site = bb
                 if site is None or not all(site in dom[d] for d in dsp_blocks):
                     ok = False
+        # every worker, every sample: a worker call inside a closure is run for each worker only if the closure is
+        # consumed exhaustively (`for_each`, `fold`); handed to a lazy adaptor whose consumer may stop early (`find`,
+        # `any`, `all`, `try_for_each`, ...), the workers after the first hit are skipped on that sample
+        SHORT = ("find", "find_map", "any", "all", "position", "take_while", "map_while", "try_for_each", "try_fold", "next", "nth", "take", "skip_while", "peekable", "step_by")
+        for g, b in worker_sites:
+            if g.path == f.path:
+                continue
+            consumer = None
+            for bb, s2 in f.all_stmts():
+                if s2[KIND] == "a" and s2[5][0] == "agg" and s2[5][1][0] == "closure" and s2[5][1][1] == g.path:
+                    dst = s2[4][0]
+                    for b3, t3 in f.calls():
+                        if any(a[0] in ("cp", "mv") and a[1][0] == dst for a in t3[5]):
+                            consumer = (callee(t3) or "").split("::")[-1]
+            names = {(callee(t3) or "").split("::")[-1] for _, t3 in f.calls()}
+            key2 = "every-worker|%s" % f.short
+            if consumer in ("for_each", "fold") or not (names & set(SHORT)):
+                ck.ok(R, key2)
+            else:
+                ck.bad(R, key2, "%s hands the closure that calls the workers' on_sample to `%s` and consumes the result with a short-circuiting adaptor (%s): on a sample where one worker's result ends the iteration the workers after it are not run at all — a scheduler registered behind it misses that sample, and the tasks due then run late" % (f.short, consumer, ", ".join(sorted(names & set(SHORT)))), f.where())
         if ok:
             ck.ok(R, "workers-before-dsp|%s" % f.short, {"fn": f.short, "worker_sites": len(worker_sites)})
         else:
             ck.bad(R, "workers-before-dsp|%s" % f.short, "%s: a plugin worker can run after the dsp call of the same sample (scheduled tasks would fire one sample late)" % f.short, f.where())
+
+
+def rule_driver_clock(ck, facts):
+    """the time a driver hands to run_dsp is the sample counter that `now` reads"""
+    R = "C11.protocol"
+    n = 0
+    ad = facts.crate("mimium_audiodriver")
+    for f in ad.fns:
+        if f.kind == "promoted" or "::test" in f.path:
+            continue
+        sites = [(b, t) for b, t in f.calls() if (callee_def(t) or callee(t) or "").endswith("::run_dsp") and len(t[5]) >= 2]
+        if not sites:
+            continue
+        # forwarders pass their own argument on
+        di = DefIndex(f)
+        for b, t in sites:
+            r = di.resolve(t[5][1]) if t[5][1][0] in ("cp", "mv") else None
+            if r and r[0] == "arg":
+                continue
+            n += 1
+            sx = SymEx(f, max_paths=64, max_steps=8000, facts=facts)
+            try:
+                paths = sx.run(0, stop_at_call=lambda nm, tt, t=t: tt is t)
+            except PathLimit:
+                paths = sx.paths
+            exprs = {repr(p.events[-1][2][1]) for p in paths if p.end == "stopcall"}
+            key = "driver-clock|%s" % f.short
+            if exprs and all("Atomic" in e and ("::load" in e or "fetch_add" in e) for e in exprs):
+                ck.ok(R, key, {"fn": f.short, "time": "the shared sample counter"})
+            else:
+                ck.bad(R, key, "%s passes run_dsp a time that is not read from the driver's sample counter (the atomic that `now` and the scheduler's `@` read): %s. When the two clocks drift apart (a second block, a restart) tasks scheduled against `now` are compared with a time that starts over, and never become due" % (f.short, "; ".join(sorted(x[:90] for x in exprs)) or "no path to the call analysed"), f.where(t))
+    ck.floor(R, "driver_ticks", n, 2)
 
 
 def rule_drain(ck, facts):
@@ -518,6 +570,7 @@ def run(ck, facts, tier):
     rule_time_conversion(ck, facts)
     rule_guards(ck, facts)
     rule_protocol(ck, facts)
+    rule_driver_clock(ck, facts)
     rule_drain(ck, facts)
     rule_closure_lifetime(ck, facts)
     ck.not_decided("exactly-once execution over histories, order among tasks due at the same sample, lifetime of scheduled closures")
